@@ -75,6 +75,14 @@ pub fn check_tx(tx: &MultiEraTx, view: &TxView, src: &[u8], obs: &mut Obs, diver
         pv_ensure!(d.original_hash().as_ref() == want, "c05-datum-hash:witness",
             "witness datum {}: original_hash {} expected {}", hexs(n.span(src)), d.original_hash(), hexs(&want));
         obs.class("item:witness-datum");
+        // the by-hash lookup answers for the wire hash, with a datum that has those wire bytes (two datums may share them)
+        let h = pallas_crypto::hash::Hash::<32>::from(want);
+        match tx.find_plutus_data(&h) {
+            Some(found) => pv_ensure!(found.raw_cbor() == n.span(src), "c05-datum-lookup-by-hash:wrong-datum",
+                "find_plutus_data({}) returns a datum with bytes {} instead of {}", hexs(&want), hexs(found.raw_cbor()), hexs(n.span(src))),
+            None => pv_fail!("c05-datum-lookup-by-hash:not-found",
+                "witness datum {} has the wire hash {}, but find_plutus_data does not find it", hexs(n.span(src)), hexs(&want)),
+        }
         if d.compute_hash().as_ref() != want {
             *diverges = true;
             obs.class("diverges:witness-datum");
